@@ -68,12 +68,31 @@ def free_two_orbital(t=4, e1=0, e2=8):
     return model("free2orb(t=%s)" % t, [["A", 2, 2]], b)
 
 
+def decoupled(eps=(8, -4, 2), U=None):
+    """sites that do not talk to each other, with different levels: every block of H is exactly diagonal in the Fock basis, larger than 1x1,
+    and its first Fock state is not its lowest level"""
+    n = len(eps)
+    sites = [[chr(65 + i), 1, 1 if U is None else 2] for i in range(n)]
+    b = [P("addLevel", chr(65 + i), eps[i]) if U is None else P("addCoulombS", chr(65 + i), U, eps[i]) for i in range(n)]
+    return model("decoupled(e=%s,U=%s)" % (",".join(map(str, eps)), U), sites, b)
+
+
+def shifted(m, v=128):
+    """m plus the constant v/den: the pair v (c c+ + c+ c) on the first mode, given anti-normal-ordered and normal-ordered through addTerm
+    (the spectrum of the result is strictly positive for every catalogue / random model: no vacuum level at 0 to hide behind)"""
+    l, o, s = sorted(m["sites"])[0][0], 0, 0
+    m = dict(m)
+    m["id"] = "shift%d:%s" % (v, m["id"])
+    m["build"] = list(m["build"]) + [T([[0, l, o, s], [1, l, o, s]], v), T([[1, l, o, s], [0, l, o, s]], v)]
+    return m
+
+
 SMALL = [hubbard_atom, dimer, spinflip_atom, pair_atom, mixed_sites]
 
 
 def catalogue(thorough=False):
     ms = [hubbard_atom(), hubbard_atom(U=0, eps=4), dimer(), dimer(t=4, U=0, eps=0, eps2=8), spinless_chain(3), spinflip_atom(),
-          pair_atom(), mixed_sites(), kanamori(), heisenberg_dimer(), free_two_orbital()]
+          pair_atom(), mixed_sites(), kanamori(), heisenberg_dimer(), free_two_orbital(), shifted(hubbard_atom(U=8, eps=2), 64)]
     if thorough:
         ms += [dimer(t=-8, U=16, eps=-8), spinless_chain(4, t=-4), kanamori(U=12, J=0), spinflip_atom(h=-8, U=0), pair_atom(delta=-8, U=8)]
     return ms
